@@ -1055,7 +1055,11 @@ func (e *Env) applySpec(sf *SpecFunc, args []tval) (tval, error) {
 	}
 	e.vc().declFunRaw(sf.Name, ss, rs[0])
 	e.fr.eng.noteSpecUse(e.vc(), sf.Name)
-	return tval{T: rt, C: []string{app(sf.Name, cs...)}}, nil
+	term := app(sf.Name, cs...)
+	if sf.Prefix != "" {
+		e.notePrefixApp(sf, args, cs, term)
+	}
+	return tval{T: rt, C: []string{term}}, nil
 }
 
 func (vc *VC) declFunRaw(name string, args []Sort, ret Sort) {
@@ -1100,4 +1104,75 @@ func (e *Env) ghostLoc(x ECall, sortName string) (key, idx string, srt Sort, rt 
 		key = o.C[0]
 	}
 	return key, i.C[0], srt, rt, nil
+}
+
+// prefixApp: one ground application of a prefix-extensional spec function (see SpecFunc.Prefix)
+type prefixApp struct {
+	term  string
+	slice []string // ref, off, len, cap
+	rows  map[Sort]string
+	bound string
+	rest  string // the remaining arguments, as one string
+	w     int
+	lay   []Sort
+}
+
+func (e *Env) notePrefixApp(sf *SpecFunc, args []tval, cs []string, term string) {
+	if strings.Contains(term, "q_") || len(args) == 0 || args[0].T == nil {
+		return
+	}
+	sl, ok := args[0].T.Underlying().(*types.Slice)
+	if !ok || !e.l().flatOK(sl.Elem()) {
+		return
+	}
+	vc := e.vc()
+	st := e.st
+	if args[0].St != nil {
+		st = args[0].St
+	}
+	pa := prefixApp{term: term, slice: args[0].C, rows: map[Sort]string{}, w: e.l().sizeOf(sl.Elem()), lay: e.l().layout(sl.Elem())}
+	for _, srt := range uniqSorts(pa.lay) {
+		pa.rows[srt] = vc.rowOf(st, srt, args[0].C[0])
+	}
+	pa.bound = args[0].C[2]
+	var rest []string
+	for i := 1; i < len(args); i++ {
+		if sf.Prefix != "len" && i < len(sf.Params) && sf.Params[i][0] == sf.Prefix {
+			pa.bound = args[i].C[0]
+			continue
+		}
+		rest = append(rest, args[i].C...)
+	}
+	pa.rest = strings.Join(rest, " ")
+	if vc.prefixApps == nil {
+		vc.prefixApps = map[string][]prefixApp{}
+	}
+	for _, o := range vc.prefixApps[sf.Name] {
+		if o.term == term || o.rest != pa.rest || o.w != pa.w {
+			continue
+		}
+		if isNumLit(o.bound) && isNumLit(pa.bound) && o.bound != pa.bound {
+			continue
+		}
+		sameData := strings.Join(o.slice[:2], " ") == strings.Join(pa.slice[:2], " ")
+		for srt, r := range pa.rows {
+			if o.rows[srt] != r {
+				sameData = false
+			}
+		}
+		if sameData {
+			continue // same elements: equal bounds give equal terms by congruence (len/cap arguments aside)
+		}
+		// equal bounds and element-wise equal prefixes give equal values
+		var eqs []string
+		for c, srt := range pa.lay {
+			a := app("select", pa.rows[srt], vc.atTerm(pa.w, c, pa.slice[1], "j"))
+			b := app("select", o.rows[srt], vc.atTerm(o.w, c, o.slice[1], "j"))
+			eqs = append(eqs, sEq(a, b))
+		}
+		body := sImp(sAnd(app("<=", "0", "j"), app("<", "j", pa.bound)), sAnd(eqs...))
+		vc.emit("(assert (=> (and (= " + pa.bound + " " + o.bound + ") (forall ((j Int)) " + body + ")) (= " + pa.term + " " + o.term + "))) ; prefix extensionality of " + sf.Name)
+	}
+	vc.prefixApps[sf.Name] = append(vc.prefixApps[sf.Name], pa)
+	vc.assumptions["spec function "+sf.Name+" is declared to depend only on the first "+sf.Prefix+" elements of its slice argument (extensionality instances are generated)"] = true
 }
